@@ -62,7 +62,7 @@ if rc:
         machinery("model driver does not build:\n" + bout[-3000:])
 
 # 2b. tie 1b: the registry functions translated from /repo's Go source = the model (DESIGN §11)
-TIE_PROPS = {"C03", "C04", "C05", "C06", "C07", "C08", "C13", "C15", "C16", "C17", "C18", "C19"}
+TIE_PROPS = {"C%02d" % i for i in range(1, 21)}
 TIE_THEOREMS = {".IsReservedWord": "IsReservedWord_eq", "File.isLocal": "isLocal_eq", "File.isValidAlias": "isValidAlias_eq",
                 "File.isDotImport": "isDotImport_eq", "File.prefixed": "prefixed_eq", ".guessAlias": "guessAlias_eq",
                 "File.register": "register_src_eq_model", "File.Anon": "Anon_eq", "File.ImportName": "ImportName_eq",
@@ -70,7 +70,8 @@ TIE_THEOREMS = {".IsReservedWord": "IsReservedWord_eq", "File.isLocal": "isLocal
                 "comment.render": "comment_render_eq", "tag.isNull": "tag_isNull_eq", "tag.render": "tag_render_eq",
                 "File.renderImports": "renderImports_src_eq_model",
                 "token.isNull": "token_isNull_eq", "comment.isNull": "comment_isNull_eq", "Group.isNullItems": "Group_isNullItems_eq",
-                "Group.isNull": "Group_isNull_eq", "Statement.isNull": "Statement_isNull_eq", "Dict.isNull": "Dict_isNull_eq"}
+                "Group.isNull": "Group_isNull_eq", "Statement.isNull": "Statement_isNull_eq", "Dict.isNull": "Dict_isNull_eq",
+                "Statement.render": "Statement_render_eq", "Group.renderItems": "Group_renderItems_eq", "Group.render": "Group_render_eq"}
 syntactic_tie = None
 escalate = 1
 if prop in TIE_PROPS:
@@ -93,11 +94,13 @@ if prop in TIE_PROPS:
     THM_FILE.update({"guessAlias_eq": "JenVerif/Tie/GuessAliasSrc.lean", "register_src_eq_model": "JenVerif/Tie/Registry.lean",
                      "comment_render_eq": "JenVerif/Tie/TextSrc.lean", "tag_isNull_eq": "JenVerif/Tie/TextSrc.lean", "tag_render_eq": "JenVerif/Tie/TextSrc.lean",
                      "renderImports_src_eq_model": "JenVerif/Tie/Registry.lean"})
+    THM_FILE.update({t: "JenVerif/Tie/RenderSrc.lean" for t in ("Statement_render_eq", "Group_renderItems_eq", "Group_render_eq")})
     THM_FILE.update({t: "JenVerif/Tie/NullSrc.lean" for t in ("token_isNull_eq", "comment_isNull_eq", "Group_isNullItems_eq", "Group_isNull_eq", "Statement_isNull_eq", "Dict_isNull_eq")})
     DEPS = {"JenVerif/Tie/RegistrySrc.lean": [], "JenVerif/Tie/GuessAliasSrc.lean": [],
             "JenVerif/Tie/RegisterSrc.lean": ["JenVerif/Tie/RegistrySrc.lean"], "JenVerif/Tie/TextSrc.lean": [], "JenVerif/Tie/ImportsSrc.lean": [], "JenVerif/Tie/NullSrc.lean": ["JenVerif/Tie/RegistrySrc.lean"],
+            "JenVerif/Tie/RenderSrc.lean": ["JenVerif/Tie/RegistrySrc.lean", "JenVerif/Tie/NullSrc.lean"],
             "JenVerif/Tie/Registry.lean": ["JenVerif/Tie/RegisterSrc.lean", "JenVerif/Tie/GuessAliasSrc.lean", "JenVerif/Tie/RegistrySrc.lean",
-                                           "JenVerif/Tie/TextSrc.lean", "JenVerif/Tie/ImportsSrc.lean", "JenVerif/Tie/NullSrc.lean"]}
+                                           "JenVerif/Tie/TextSrc.lean", "JenVerif/Tie/ImportsSrc.lean", "JenVerif/Tie/NullSrc.lean", "JenVerif/Tie/RenderSrc.lean"]}
     gen_broken = rct and ("Gen/SrcRegistry.lean" in tie_out and "error" in tie_out and not bad_files)
     for fn_, thm in TIE_THEOREMS.items():
         tf = THM_FILE[thm]
